@@ -593,7 +593,7 @@ fn parse_large_tuple<'a>(input: &'a [u8], cache: &AtomCache) -> NomResult<'a, Ow
         return Err(nom::Err::Failure(NomError::new(input, ErrorKind::TooLarge)));
     }
     let mut remaining = input;
-    let mut elements = Vec::with_capacity(arity as usize);
+    let mut elements = Vec::with_capacity((arity as usize).min(input.len()));
 
     for _ in 0..arity {
         let (new_remaining, term) = parse_term(remaining, cache)?;
@@ -620,7 +620,7 @@ fn parse_list<'a>(input: &'a [u8], cache: &AtomCache) -> NomResult<'a, OwnedTerm
         return Err(nom::Err::Failure(NomError::new(input, ErrorKind::TooLarge)));
     }
     let mut remaining = input;
-    let mut elements = Vec::with_capacity(len as usize);
+    let mut elements = Vec::with_capacity((len as usize).min(input.len()));
 
     for _ in 0..len {
         let (new_remaining, term) = parse_term(remaining, cache)?;
@@ -828,7 +828,7 @@ fn parse_new_fun_ext<'a>(input: &'a [u8], cache: &AtomCache) -> NomResult<'a, Ow
     };
 
     let mut remaining = input;
-    let mut free_vars = Vec::with_capacity(num_free as usize);
+    let mut free_vars = Vec::with_capacity((num_free as usize).min(input.len()));
     for _ in 0..num_free {
         let (new_remaining, term) = parse_term(remaining, cache)?;
         free_vars.push(term);
@@ -1004,7 +1004,7 @@ fn parse_large_tuple_borrowed<'a>(
         return Err(nom::Err::Failure(NomError::new(input, ErrorKind::TooLarge)));
     }
     let mut remaining = input;
-    let mut elements = Vec::with_capacity(arity as usize);
+    let mut elements = Vec::with_capacity((arity as usize).min(input.len()));
 
     for i in 0..arity {
         ctx.push(PathSegment::TupleElement(i as usize));
@@ -1037,7 +1037,7 @@ fn parse_list_borrowed<'a>(
         return Err(nom::Err::Failure(NomError::new(input, ErrorKind::TooLarge)));
     }
     let mut remaining = input;
-    let mut elements = Vec::with_capacity(len as usize);
+    let mut elements = Vec::with_capacity((len as usize).min(input.len()));
 
     for i in 0..len {
         ctx.push(PathSegment::ListElement(i as usize));
@@ -1282,7 +1282,7 @@ fn parse_new_fun_ext_borrowed<'a>(
     };
 
     let mut remaining = input;
-    let mut free_vars = Vec::with_capacity(num_free as usize);
+    let mut free_vars = Vec::with_capacity((num_free as usize).min(input.len()));
     for i in 0..num_free {
         ctx.push(PathSegment::FunFreeVar(i as usize));
         let (new_remaining, term) = parse_term_borrowed(remaining, original_len, ctx)?;
